@@ -91,6 +91,7 @@ class Interp(LibMixin, CallMixin, StmtMixin, ExprMixin, InterpBase):
                 st.ghost.setdefault("host_data_dicts", []).append(base)
             elif hasattr(p.elem, "kind"):
                 st.ghost.setdefault("dict_value_sorts", {})[str(base)] = p.elem
+                st.ghost.setdefault("agent_dicts", []).append(base)
         elif p.kind == "frame":
             r = self.fresh_ref(name)
             base = VRef(r)
